@@ -415,3 +415,6 @@ def run_case(case):
           "digest": common.digest(*digests), "violations": viol, "traces": len(xs) * len(digests),
           "sample": {"cls": cls, "geometry": case["g"], "slots": dict(zip(spec["w"] + ["activation"], slots)),
                      "input_shape": list(shape), "phases": len(digests)}}
+
+# (appended: sub-lattices added after the seeded waves; kept out of the original RULE text for readability)
+RULE = RULE + '; plus: channels_first convolutions (compared through transposition), each combined with every single other geometry deviation; QBidirectional (derived / explicit backward layer); every case is executed a second time after the noise of the REPORTED quantizer objects was switched off through the reported handles'
